@@ -154,6 +154,7 @@ class C01(Check):
 
 
 class C02(Check):
+    needs_golden = True
     rule = ("deterministic programs (no at-most-once steps, no completion-order dependent map/parallel config); per-position "
             "delivery log compared across invocations and final outcome compared with the fault-free run; non-trivial iff some "
             "position was delivered in >=2 invocations")
@@ -413,6 +414,7 @@ class C07(Check):
 
 
 class C08(Check):
+    needs_golden = True
     rule = ("nested child/map/parallel programs; the same program is run under several schedules and crash plans and all update "
             "streams are checked together: path->Id is a function, injective, ParentId = Id(enclosing context); non-trivial iff "
             "depth >=2 with >=2 sibling branches observed in >=2 invocations")
@@ -815,7 +817,7 @@ class C05(ComponentCheck):
         return components.reach_c05(cfg, r)
 
     def required_reach(self, tier):
-        return ["api-calls>=2", "batch-of-2+", "count-limit-hit", "oversize-update-generated", "empty-checkpoint-call"]
+        return ["api-calls>=2", "batch-of-2+", "count-limit-hit", "oversize-update-generated", "empty-checkpoint-call", "paginated-response"]
 
 
 
@@ -864,8 +866,12 @@ class C09(Check):
                 cfgc["min"] = rng.randrange(1, max(2, n + 1))
             if rng.random() < 0.45:
                 cfgc["tol"] = rng.choice([0, 1, 2, max(0, n - 1)])
-            if rng.random() < 0.3:
+            if rng.random() < 0.35:
                 cfgc["pct"] = rng.choice([0, 14, 16, 20, 25, 33, 34, 50, 66, 100])
+                if n >= 2 and rng.random() < 0.6:
+                    # a tolerance that sits exactly at the floor of a fractional percentage: k of n failures exceed it
+                    k = rng.randrange(1, n)
+                    cfgc["pct"] = (100 * k) // n
             if rng.random() < 0.45:
                 cfgc["conc"] = rng.choice([1, 2, max(1, n)])
             if rng.random() < 0.2:
